@@ -1,7 +1,7 @@
 //! C01 (bulkhead bound) and C07 (bulkhead capacity conservation / rejection discipline).
 //! One scenario generator, two monitors.
 
-use crate::actors::caller;
+use crate::actors::{caller, caller_linger, Linger};
 use crate::prng::{Fnv, Prng};
 use crate::report::{Report, Tier};
 use crate::sim::{run_sim, What};
@@ -147,7 +147,8 @@ pub fn run(cfg: &Cfg, seed: u64) -> (Arc<World>, crate::sim::SimStats) {
             for j in 0..=(cfg.n as u64) {
                 let req = Req::new(PROBE_BASE * g as u64 + j, 0, vec![Step::ok(Lat::Gate(gate))]);
                 let svc = svcs[(g - 1) as usize].clone();
-                let a = sim.actor(req.id, caller(w.clone(), svc, req, false, map_err));
+                // probers have exact timing expectations: plain clients
+                let a = sim.actor(req.id, caller_linger(w.clone(), svc, req, false, Linger::No, map_err));
                 sim.start_at(T_PROBE, a);
             }
         }
